@@ -608,7 +608,35 @@ func (g *gen) genFrames(n int) {
 }
 
 // all compositions of short frames (C07 exhaustive part): n = number of frames
-func (g *gen) genCompositions(n int) {}
+func (g *gen) genCompositions(n int) {
+	for c := 0; c < n; c++ {
+		f := g.specFrame(g.anyKind())
+		fr := f.frame()
+		if len(fr) > 11 || len(fr) < 3 {
+			c--
+			continue
+		}
+		g.emit("RESET")
+		g.emit("NOTE case=comp base")
+		g.emit("RD x %s sched=- eofwd=0 fail=eof calls=1", hx(fr))
+		L := len(fr)
+		for mask := 0; mask < 1<<(L-1); mask++ {
+			var s []int
+			run := 1
+			for i := 0; i < L-1; i++ {
+				if mask&(1<<i) != 0 {
+					s = append(s, run)
+					run = 1
+				} else {
+					run++
+				}
+			}
+			s = append(s, run)
+			g.emit("NOTE case=sched")
+			g.emit("RD x %s sched=%s eofwd=%d fail=eof calls=1", hx(fr), schedStr(s), mask&1)
+		}
+	}
+}
 
 func (g *gen) genCuts(n int) {
 	for c := 0; c < n; c++ {
@@ -843,7 +871,29 @@ func (g *gen) genMalformed(n int) {
 }
 
 // all byte strings of length <= L after every type nibble (C04 exhaustive part): seed = L
-func (g *gen) genShort(L int) {}
+func (g *gen) genShort(L int) {
+	var rec func(prefix []byte, left int, f func([]byte))
+	rec = func(prefix []byte, left int, f func([]byte)) {
+		f(prefix)
+		if left == 0 {
+			return
+		}
+		for b := 0; b < 256; b++ {
+			rec(append(prefix[:len(prefix):len(prefix)], byte(b)), left-1, f)
+		}
+	}
+	for t := 0; t < 16; t++ {
+		g.emit("RESET")
+		g.emit("NOTE case=short type=%d", t)
+		rec(nil, L, func(body []byte) {
+			g.emit("RD x %s sched=- eofwd=0 fail=eof calls=1", hx(reframe(byte(t<<4|g.r.Intn(16)), body)))
+			if len(body) <= 1 || g.chance(0.02) {
+				g.emit("ZERO p %s", kindNames[t])
+				g.emit("DEC p %s", hxd(body))
+			}
+		})
+	}
+}
 
 func (g *gen) genFirst(n int) {
 	// bodies valid for each type (several each), tried under all 16 low nibbles
